@@ -50,4 +50,16 @@ theorem C18_upload_event_order : Generated.webdavChanEvents = Expected.webdavCha
 example : Reachable (init 1 true 0) ⟨.returned true, .answered true, .exited, true, true, none⟩ := by
   refine .step (.step (.step (.step (.step (.step (.step .refl (.consumeP 0 0 _ _ _)) (.close _ _ _ _ _)) (.answerEOF _ true 0 _ _ _ true)) (.closeBody _ _ _ _ _ true rfl)) (.doReturns _ _ _ _ _ true rfl)) (.send _ _ _ _ true)) (.recv _ _ _ _ true)
 
+/-- the types whose values serve requests or make calls on behalf of several goroutines at once -/
+def serviceTypes : List String := ["Handler", "backend", "Client", "LocalFileSystem", "fileWriter", "basicAuthHTTPClient"]
+
+/-- regenerated fact: no method of a handler, a backend adapter, a client or the local file system assigns through its
+    receiver — whatever is written through a pointer receiver anywhere in the four packages belongs to a decoder filling
+    in its own value (`*etag`, `s.Code`, `r.Query` …), a response under construction, or the cursor of a raw-value
+    reader created per call.  A cache field on a handler, a memoised endpoint on a client would show here. -/
+theorem C18_service_values_keep_no_state :
+    (Generated.internalReceiverWriteTypes ++ Generated.webdavReceiverWriteTypes ++ Generated.caldavReceiverWriteTypes ++
+      Generated.carddavReceiverWriteTypes).all (fun t => !serviceTypes.contains t) = true := by
+  decide
+
 end GoWebdav.Props.C18
